@@ -672,6 +672,8 @@ impl<D: Device, P: Protocol, S: Socket, TS: TimeSource> GenericCloud<D, P, S, TS
                 },
             );
             self.update_peer_info(addr, Some(info))?;
+            // The interval until the next peer list was chosen without knowing this peer's timeout: send the next one right away
+            self.next_peers = min(self.next_peers, TS::now());
         } else {
             error!("No init for new peer {}", addr_nice(addr));
         }
